@@ -179,3 +179,118 @@ func TestVerifComposedGates(t *testing.T) {
 	})
 	c.Done()
 }
+
+type gMux struct{ h map[string]http.Handler }
+
+func (r *gMux) ServeHTTP(w http.ResponseWriter, req *http.Request) { r.h[req.URL.Path].ServeHTTP(w, req) }
+func (r *gMux) Handle(method, path string, handler http.Handler) error {
+	r.h[path] = handler
+	return nil
+}
+func (r *gMux) SetNotFoundHandler(handler http.Handler)   {}
+func (r *gMux) SetNotAllowedHandler(handler http.Handler) {}
+
+// Two route groups on one engine, each with its own signature keys (same or different
+// fingerprint labels) and its own jwt secret: a route admits exactly the credentials
+// configured for its own group.
+func TestVerifComposedGatesTwoGroups(t *testing.T) {
+	defer vrt.WriteReport()
+	logx.Disable()
+	stat.SetReporter(nil)
+	jwt.TimeFunc = vrt.Now
+	if !vrt.Shard(2) {
+		return
+	}
+	dir, err := os.MkdirTemp("", "c04keys2")
+	if err != nil {
+		vrt.InfraError("mkdtemp: %v", err)
+	}
+	defer os.RemoveAll(dir)
+	type kp struct {
+		file string
+		enc  codec.RsaEncryptor
+	}
+	mk := func(name string) kp {
+		k, err := rsa.GenerateKey(rand.Reader, 1024)
+		if err != nil {
+			vrt.InfraError("rsa: %v", err)
+		}
+		f := filepath.Join(dir, name+".pem")
+		os.WriteFile(f, pem.EncodeToMemory(&pem.Block{Type: "RSA PRIVATE KEY", Bytes: x509.MarshalPKCS1PrivateKey(k)}), 0o600)
+		pubDer, _ := x509.MarshalPKIXPublicKey(&k.PublicKey)
+		enc, err := codec.NewRsaEncryptor(pem.EncodeToMemory(&pem.Block{Type: "PUBLIC KEY", Bytes: pubDer}))
+		if err != nil {
+			vrt.InfraError("encryptor: %v", err)
+		}
+		return kp{f, enc}
+	}
+	keyA, keyB := mk("a"), mk("b")
+	c := vrt.NewCases("auth/composed-gates-two-groups")
+	vrt.RunOnce(vrt.Options{Name: "two-groups"}, func(r *vrt.Run) {
+		for _, labels := range [][2]string{{"fpA", "fpB"}, {"fp", "fp"}} {
+			for _, order := range []string{"A-first", "B-first"} {
+				ran := map[string]int{}
+				group := func(path, fp string, k kp, secret string) featuredRoutes {
+					fr := featuredRoutes{routes: []Route{{Method: "POST", Path: path, Handler: func(w http.ResponseWriter, req *http.Request) { ran[path]++ }}}}
+					WithSignature(SignatureConfig{Strict: true, Expire: 5 * time.Second, PrivateKeys: []PrivateKeyConfig{{Fingerprint: fp, KeyFile: k.file}}})(&fr)
+					WithJwt(secret)(&fr)
+					return fr
+				}
+				ga := group("/ga", labels[0], keyA, "secret-of-group-a")
+				gb := group("/gb", labels[1], keyB, "secret-of-group-b")
+				ng := newEngine(Config{Timeout: 0, MaxConns: 100})
+				if order == "A-first" {
+					ng.addRoutes(ga)
+					ng.addRoutes(gb)
+				} else {
+					ng.addRoutes(gb)
+					ng.addRoutes(ga)
+				}
+				rt := &gMux{h: map[string]http.Handler{}}
+				if err := ng.bindRoutes(rt); err != nil {
+					c.Violation(fmt.Sprint(labels, order), "config", fmt.Sprintf("bindRoutes: %v", err))
+					continue
+				}
+				for _, path := range []string{"/ga", "/gb"} {
+					for _, sigKey := range []string{"A", "B"} {
+						for _, tok := range []string{"A", "B"} {
+							own := map[string]string{"/ga": "A", "/gb": "B"}[path]
+							k, fp := keyA, labels[0]
+							if sigKey == "B" {
+								k, fp = keyB, labels[1]
+							}
+							secret := map[string]string{"A": "secret-of-group-a", "B": "secret-of-group-b"}[tok]
+							body := "hello"
+							ts := vrt.Now().Unix()
+							key := []byte("0123456789abcdef")
+							content := strings.Join([]string{strconv.FormatInt(ts, 10), "POST", path, "", fmt.Sprintf("%x", sha256.Sum256([]byte(body)))}, "\n")
+							blob, _ := k.enc.Encrypt([]byte(fmt.Sprintf("key=%s; time=%d; type=0", base64.StdEncoding.EncodeToString(key), ts)))
+							req := httptest.NewRequest("POST", path, strings.NewReader(body))
+							req.Header.Set("Authorization", "Bearer "+gToken(secret, 30))
+							req.Header.Set(httpx.ContentSecurity, fmt.Sprintf("fingerprint=%s; secret=%s; signature=%s", fp, base64.StdEncoding.EncodeToString(blob), codec.HmacBase64(key, content)))
+							before := ran[path]
+							rec := httptest.NewRecorder()
+							rt.ServeHTTP(rec, req)
+							admitted := ran[path] == before+1
+							want := sigKey == own && tok == own
+							wantCode := 200
+							if tok != own {
+								wantCode = 401
+							} else if sigKey != own {
+								wantCode = 403
+							}
+							in := fmt.Sprintf("fingerprints=%v bound=%s route=%s signed-with-key=%s jwt-of-group=%s", labels, order, path, sigKey, tok)
+							c.Eval(fmt.Sprintf("%v/%s/%s/sig=%s/jwt=%s", labels, order, path, sigKey, tok), func() any {
+								return map[string]any{"case": in, "handler_ran": admitted, "status": rec.Code}
+							})
+							if admitted != want || rec.Code != wantCode {
+								c.Violation(in, "admit/deny", fmt.Sprintf("handler ran=%v status=%d, want ran=%v status=%d", admitted, rec.Code, want, wantCode))
+							}
+						}
+					}
+				}
+			}
+		}
+	})
+	c.Done()
+}
